@@ -128,6 +128,23 @@ func groupProgram(prefix string, g kyber.Group, seed uint64, n int) {
 	}
 }
 
+// rawStream delivers the given bytes, then the filler 0x01.
+type rawStream struct {
+	buf []byte
+	pos int
+}
+
+func (s *rawStream) XORKeyStream(dst, src []byte) {
+	for i := range src {
+		b := byte(0x01)
+		if s.pos < len(s.buf) {
+			b = s.buf[s.pos]
+		}
+		s.pos++
+		dst[i] = src[i] ^ b
+	}
+}
+
 // historyProgram: a pseudo-random straight-line program in which receivers are
 // existing objects (values overwritten in place, re-decoded in place, set on
 // used receivers), operands alias receivers, and payload/byte lengths sit at
@@ -219,6 +236,19 @@ func historyProgram(prefix string, g kyber.Group, seed uint64, n int) {
 				dd, err := pt[pd].Data()
 				emit(label+fmt.Sprintf("/data/%v", err != nil), dd)
 			}
+		}()
+	}
+	// Pick at the rejection boundary: the stream delivers exactly q-1, q, q+1 (then filler)
+	for d := int64(-1); d <= 1; d++ {
+		v := new(big.Int).Add(q, big.NewInt(d))
+		raw := v.FillBytes(make([]byte, (q.BitLen()+7)/8))
+		func() {
+			defer func() {
+				if r := recover(); r != nil {
+					emit(fmt.Sprintf("%s/pick-boundary/%d/panic", prefix, d), []byte(fmt.Sprint(r)))
+				}
+			}()
+			emit(fmt.Sprintf("%s/pick-boundary/%d", prefix, d), enc(g.Scalar().Pick(&rawStream{buf: raw})))
 		}()
 	}
 	for i, s := range sc {
